@@ -1,5 +1,5 @@
 (* Run.v - executable entry points used by the correspondence check. *)
-From DW Require Export Render.
+From DW Require Export StageA.
 
 Inductive run_result :=
 | ROk (impls : list impl_out)
@@ -43,3 +43,8 @@ Definition error_name (e : error) : string :=
   | EIncomparableOnItemAndVariant => "incomparable_on_item_and_variant" | EZeroize => "zeroize"
   | EDeprecatedZeroizeDrop => "deprecated_zeroize_drop" | ESyn => "syn"
   end.
+
+Inductive stage_a_result := AOk (ts : toks) | AErr (e : error) | APanic (site : string).
+Definition run_stage_a (r : raw_item) (s : item_src) : stage_a_result :=
+  match stage_a r s with Ok ts => AOk (flatten ts) | Err e => AErr e | Panic p => APanic p end.
+Definition run_strip (r : raw_item) (s : item_src) : toks := flatten (strip_item r s).
